@@ -3,19 +3,31 @@
 Sub-checks (all exhaustive over the stated finite spaces, all on the real code in a scratch cwd):
 
   bisc_hist  E2  BFS over write/read/delete/truncate histories of the BiSC data files (model: file
-                 -> dictionaries last written | corrupt | absent); after EVERY history all files are read
-                 back and compared with the model.
+                 -> dictionaries last written | corrupt | absent); after EVERY history all files of the
+                 alphabet are read back and compared with the model.
   db_hist    E2  BFS over store/load/delete/truncate/create/from_db histories of the automaton
-                 database; oracle = language equality (own product BFS) with a fresh computation.
+                 database, from a bare directory and from an existing empty skeleton; oracle = language
+                 equality (own product BFS, mc/ref_c20.py) with a fresh computation; after every
+                 history every automaton of the pool is loaded with the memo as the history left it
+                 and again as a new process would see the directory.
   bisc_trunc E5  every byte prefix of written BiSC files.
   db_trunc   E5  every byte prefix of stored automaton files.
   malformed  E1  fixed list of malformed / missing inputs of read_bisc_file.
   roundtrip  E1  write -> read for the twelve named library predicates, and every ordered pair
                  (first written, then overwritten) of them under one name.
-  shipped    E1  the shipped data sets: partition of S_k for every k, equal to the named property
+  shipped    E1  the shipped data sets: partition of S_k for every level, equal to the named property
                  (definitional reference mc/ref_c20.py AND the library predicate).
-  fresh          a slice of the histories re-run in genuinely fresh interpreters (adequacy of the
-                 in-process reset; determinism).
+  fresh          a slice of the explored histories re-run in genuinely fresh interpreters
+                 (adequacy of the in-process reset; determinism).
+
+State handling: a history is replayed from scratch for every transition (fresh scratch directory,
+every lru_cache cleared, every mutable container reachable from the two modules - module level,
+class attributes, default arguments, function attributes, closure cells - restored).  The same
+containers and the lru_cache sizes are part of the canonical state.  The main process never executes
+the code under test, so every worker is forked from the state "just imported".  The shortest
+violating histories are re-run in a fresh interpreter before they are recorded; if one only fails
+together with what the worker replayed before it (state the reset cannot reach), those histories are
+recorded with it, and --replay runs the whole sequence in a fresh interpreter.
 """
 from __future__ import annotations
 
@@ -58,10 +70,37 @@ _STATE_MODULES = ["permuta.bisc.bisc", "permuta.permutils.pin_words"]
 _INITIAL = None
 
 
+def _callables():
+    """(owner description, callable) for every function defined at module level or as a class
+    member (classmethod / staticmethod / lru_cache wrappers included, unwrapped separately) in the
+    modules under test."""
+    out = []
+    for name in _STATE_MODULES:
+        mod = sys.modules.get(name)
+        if mod is None:
+            continue
+        for k, v in sorted(vars(mod).items()):
+            if isinstance(v, type) and getattr(v, "__module__", None) == name:
+                for ck, cv in sorted(vars(v).items()):
+                    out.append(((name, v.__name__ + "." + ck), getattr(cv, "__func__", cv)))
+            elif callable(v) and getattr(v, "__module__", None) == name:
+                out.append(((name, k), v))
+    more = []
+    for owner, f in out:
+        depth = 0
+        while hasattr(f, "__wrapped__") and depth < 5:
+            f = f.__wrapped__
+            depth += 1
+            more.append((owner + ("wrapped%d" % depth,), f))
+    return [(o, f) for o, f in out + more if callable(f)]
+
+
 def _containers():
-    """(owner description, container) for every mutable container bound at module level or as a
-    class attribute in the modules under test."""
+    """(owner description, container) for every mutable container the code under test could keep
+    state in between calls: bound at module level, as a class attribute, as a default argument, as
+    a function attribute or in a closure cell - in the modules under test."""
     import collections
+    kinds = (list, dict, set, collections.deque)
     out = []
     for name in _STATE_MODULES:
         mod = sys.modules.get(name)
@@ -70,12 +109,33 @@ def _containers():
         for k, v in sorted(vars(mod).items()):
             if k.startswith("__"):
                 continue
-            if isinstance(v, (list, dict, set, collections.deque)):
+            if isinstance(v, kinds):
                 out.append(((name, k), v))
             elif isinstance(v, type) and getattr(v, "__module__", None) == name:
                 for ck, cv in sorted(vars(v).items()):
-                    if isinstance(cv, (list, dict, set, collections.deque)) and not ck.startswith("__"):
+                    if isinstance(cv, kinds) and not ck.startswith("__"):
                         out.append(((name, v.__name__ + "." + ck), cv))
+    for owner, f in _callables():
+        for i, d in enumerate(getattr(f, "__defaults__", None) or ()):
+            if isinstance(d, kinds):
+                out.append((owner + ("default%d" % i,), d))
+        for k, d in sorted((getattr(f, "__kwdefaults__", None) or {}).items()):
+            if isinstance(d, kinds):
+                out.append((owner + ("kwdefault:" + k,), d))
+        try:
+            attrs = sorted(vars(f).items())
+        except TypeError:
+            attrs = []
+        for k, d in attrs:
+            if isinstance(d, kinds) and not k.startswith("__"):
+                out.append((owner + ("attr:" + k,), d))
+        for i, cell in enumerate(getattr(f, "__closure__", None) or ()):
+            try:
+                d = cell.cell_contents
+            except ValueError:
+                continue
+            if isinstance(d, kinds):
+                out.append((owner + ("cell%d" % i,), d))
     return out
 
 
@@ -92,18 +152,18 @@ def _freeze(x):
     return type(x).__name__
 
 
-def _module_state():
-    return tuple((owner, _freeze(c)) for owner, c in _containers())
-
-
 def _lru_caches():
-    _, PinWords, _ = _lib()
     out = []
-    for k, v in sorted(vars(PinWords).items()):
-        f = getattr(v, "__func__", v)
-        if hasattr(f, "cache_clear"):
-            out.append((k, f))
+    for owner, f in _callables():
+        if hasattr(f, "cache_clear") and hasattr(f, "cache_info"):
+            out.append((owner, f))
     return out
+
+
+def _module_state():
+    """In-memory state of the modules under test, as far as it can be seen from outside."""
+    return (tuple((owner, _freeze(c)) for owner, c in _containers()),
+            tuple((owner, f.cache_info().currsize) for owner, f in _lru_caches()))
 
 
 def _reset():
@@ -212,13 +272,14 @@ def _isolated(fn, *args):
     global _OWNER
     import pickle
     import traceback
-    _OWNER = os.getpid()
+    owner = os.getpid()
     sys.stdout.flush()
     sys.stderr.flush()
     rfd, wfd = os.pipe()
     pid = os.fork()
     if pid == 0:
         code = 0
+        _OWNER = owner          # the child works in the scratch directory of its parent
         try:
             os.close(rfd)
             try:
@@ -651,6 +712,7 @@ class DbModel:
             return _file_form(data)
 
         listing = _listing(form)
+        mstate = _module_state()
         present = {p for p, c in listing if c is not None}
         enabled = []
         for p in self.pool:
@@ -697,7 +759,7 @@ class DbModel:
             viols.append(first_v)
         nfiles = sum(1 for p in self.pool if _dbpath(p) in present)
         nontrivial = 1 if (len(hist) >= 2 and (nfiles >= 1 or any(memo))) else 0
-        return _digest((listing, tuple(memo), _module_state())), viols, enabled, outcomes, nontrivial
+        return _digest((listing, tuple(memo), mstate)), viols, enabled, outcomes, nontrivial
 
 
 MODELS = {"bisc": BiscModel, "db": DbModel}
@@ -717,6 +779,26 @@ def _model(kind, params):
 # transition replays its history on fresh objects; de-duplication by the complete state)
 # --------------------------------------------------------------------------------------------
 
+_DONE = []      # histories replayed in THIS process so far (what a leak could stem from)
+
+
+def _confirm(kind, params, nh, done):
+    """A violation was seen while replaying history nh in this process.  Re-run nh alone in a fresh
+    interpreter; if it does not fail there, state of the code under test has survived the reset
+    between two replays: find a short suffix of the histories replayed before that reproduces it.
+    -> list of histories to be replayed before nh (normally empty); None if not found."""
+    if _fresh(kind, params, [nh])["violations"]:
+        return []
+    k = 1
+    while True:
+        pre = done[-k:]
+        if _fresh(kind, params, pre + [nh])["violations"]:
+            return [list(h) for h in pre]
+        if k >= len(done) or k >= 32:
+            return None         # not pinned down: reported, but sorted behind the reproducible ones
+        k *= 2
+
+
 def _bfs_shard(shard):
     kind, params, items = shard
     model = _model(kind, params)
@@ -726,10 +808,12 @@ def _bfs_shard(shard):
         hist = _tup(hist)
         todo = [hist] if ops is None else [hist + (_tup(op),) for op in ops]
         for nh in todo:
-            dg, viols, enabled, outcomes, nontriv = _isolated(model.build, nh)
+            dg, viols, enabled, outcomes, nontriv = model.build(nh)
             part.add(1, 0)
             part.outcomes |= outcomes
-            out.append((nh, dg, enabled, nontriv, viols))
+            # with a violation: what was replayed in this process just before (for _confirm)
+            out.append((nh, dg, enabled, nontriv, viols, [list(h) for h in _DONE[-32:]] if viols else None))
+            _DONE.append(nh)
     os.chdir(VERIF)
     return part, out
 
@@ -741,11 +825,13 @@ def pbfs(ctx, kind, params, initials, depth):
     nontrivial = 0
     execs = 0
     found = []            # (history, violation detail)
-    res = ctx.pmap(_bfs_shard, [(kind, params, [(tuple(h), None)]) for h in initials])
+    # (always >= 2 shards: a single shard would be executed by pmap in the main process, and the
+    #  main process must stay as it was after the import - every worker is forked from it)
+    res = ctx.pmap(_bfs_shard, [(kind, params, [(tuple(h), None)]) for h in initials] + [(kind, params, [])])
     for out in res:
-        for nh, dg, enabled, nt, viols in out:
+        for nh, dg, enabled, nt, viols, pre in out:
             execs += 1
-            found += [(nh, v) for v in viols]
+            found += [(nh, v, pre) for v in viols]
             if dg not in seen:
                 seen[dg] = nh
                 nontrivial += nt
@@ -758,14 +844,14 @@ def pbfs(ctx, kind, params, initials, depth):
             break
         per = max(1, math.ceil(len(frontier) / (NPROC * 3)))
         chunks = [frontier[i:i + per] for i in range(0, len(frontier), per)]
-        res = ctx.pmap(_bfs_shard, [(kind, params, ch) for ch in chunks])
+        res = ctx.pmap(_bfs_shard, [(kind, params, ch) for ch in chunks] + [(kind, params, [])])
         new = []
         for out in res:
-            for nh, dg, enabled, nt, viols in out:
+            for nh, dg, enabled, nt, viols, pre in out:
                 transitions += 1
                 execs += 1
                 if len(found) < 5000:
-                    found += [(nh, v) for v in viols]
+                    found += [(nh, v, pre) for v in viols]
                 if dg not in seen:
                     seen[dg] = nh
                     nontrivial += nt
@@ -775,10 +861,20 @@ def pbfs(ctx, kind, params, initials, depth):
         frontier = new
         per_depth.append(len(new))
     # shortest history first (the initial histories have different lengths)
+    # the three shortest violating histories are re-examined in a fresh interpreter; then:
+    # examined first, self-contained before leak-dependent, shortest first
     found.sort(key=lambda hv: len(hv[0]))
+    found = ([(nh, v, _confirm(kind, params, nh, before)) for nh, v, before in found[:3]]
+             + [(nh, v, None) for nh, v, _ in found[3:]])
+    found.sort(key=lambda hv: (hv[2] is None, len(hv[2] or ()), len(hv[0])))
     ctx.bump(kind + "_hist_violating_histories", len(found))
-    for nh, v in found[:25]:
-        ctx.violation(kind + "_hist", {"model": kind, "params": params, "history": list(nh)}, v)
+    for nh, v, pre in found[:25]:
+        case = {"model": kind, "params": params, "history": list(nh)}
+        if pre:
+            # state of the code under test survived the reset between two replays: the case is only
+            # reproducible together with the histories replayed before it
+            case["replayed_before_in_the_same_process"] = pre
+        ctx.violation(kind + "_hist", case, v)
     return {"states": len(seen), "transitions": transitions, "executions": execs,
             "per_depth": per_depth, "nontrivial_states": nontrivial, "samples": samples,
             "histories": [seen[k] for k in list(seen)[:400]]}
@@ -1061,10 +1157,9 @@ def shard_shipped(shard):
             part.violation("shipped", {"set": name, "level": k},
                            {"why": "sizes do not add up to k!", "good": len(g), "bad": len(b)})
             return part
-        # level 8 is compared with the definition in slices by shard_level (run() plans them)
-        dec = _check_level(part, name, k, g, b, k <= min(kref, 7), k <= min(klib, 7))
+        dec = _check_level(part, name, k, g, b, k <= kref, k <= klib)
         part.add(math.factorial(k), 0)
-        if g and b and (dec or (k == 8 and kref >= 8)):
+        if g and b and dec:
             part.nontrivial += 1
             part.bump("shipped_levels_nontrivial")
         if part.nviol:
@@ -1129,39 +1224,48 @@ def shard_level(shard):
 # fresh-interpreter cross-check
 # --------------------------------------------------------------------------------------------
 
-def _observe(kind, params, hist):
+def _observe(kind, params, hists):
+    """Replay the histories one after the other in this process; -> observation of the last."""
     model = _model(kind, params)
-    dg, viols, enabled, outcomes, _ = _isolated(model.build, _tup(hist))
+    for h in hists:
+        dg, viols, enabled, outcomes, _ = model.build(_tup(h))
+    os.chdir(VERIF)
     return {"digest": dg, "violations": json.loads(json.dumps(viols, default=repr)),
             "enabled": json.loads(json.dumps(enabled)), "outcomes": sorted(outcomes)}
 
 
 def _fresh_main():
-    """Entry of the child interpreter: one history, printed observation."""
+    """Entry of the child interpreter: a sequence of histories, printed observation of the last."""
     global _WORK
     req = json.loads(sys.stdin.read())
     _WORK = req["work"]
-    sys.stdout.write("\n@@" + json.dumps(_observe(req["kind"], req["params"], req["history"])) + "\n")
+    sys.stdout.write("\n@@" + json.dumps(_observe(req["kind"], req["params"], req["histories"])) + "\n")
 
 
-def shard_fresh(shard):
-    kind, params, hist = shard
-    part = Partial()
-    here = _observe(kind, params, hist)
-    os.chdir(VERIF)
+def _fresh(kind, params, hists):
+    """The same in a genuinely fresh interpreter (new process, nothing inherited)."""
     env = dict(os.environ)
     env["PYTHONHASHSEED"] = "0"
     env["VERIF_REPO"] = REPO
     code = ("import sys; sys.path.insert(0, %r); sys.path.insert(1, %r); "
             "from mc.checks import c20; c20._fresh_main()" % (REPO, VERIF))
     proc = subprocess.run([sys.executable, "-B", "-c", code], cwd=VERIF, env=env, text=True,
-                          input=json.dumps({"kind": kind, "params": params, "history": hist,
+                          input=json.dumps({"kind": kind, "params": params, "histories": [list(h) for h in hists],
                                             "work": os.path.join(_WORK, "fresh%d" % os.getpid())}),
                           capture_output=True)
     line = [ln for ln in proc.stdout.splitlines() if ln.startswith("@@")]
     if proc.returncode != 0 or not line:
         raise RuntimeError("fresh interpreter failed: %s" % proc.stderr[-2000:])
-    there = json.loads(line[-1][2:])
+    return json.loads(line[-1][2:])
+
+
+def shard_fresh(shard):
+    kind, params, hist = shard
+    part = Partial()
+    if kind is None:
+        return part
+    here = _observe(kind, params, [hist])
+    there = _fresh(kind, params, [hist])
     part.add(1, 1 if len(hist) >= 2 else 0)
     if there != here:
         part.violation("fresh", {"model": kind, "params": params, "history": list(hist)},
@@ -1212,6 +1316,7 @@ def run(ctx, only=None):
 
     quick = ctx.quick
     _WORK = ctx.work
+    _reset()          # takes the snapshot of the state "just imported"
     ctx.rule = ("histories: distinct states (complete directory content + in-memory caches) reached by a "
                 "history of >= 2 operations with at least one live data file / stored automaton; "
                 "truncation: proper non-empty byte prefixes; shipped: (set, level) pairs where both the good "
@@ -1225,6 +1330,9 @@ def run(ctx, only=None):
         "dihedral / in_alternating_group for n < 3 follow the convention documented in the library "
         "(no independent definition); smooth as documented in the library (0213 and 1032)",
         "zero-length shipped files (emptied in this sandbox) are treated as absent",
+        "written dictionaries have the levels 0..n (as the shipped ones have 0..8 / 0..9)",
+        "the bytes the library stores for one automaton differ from call to call (state numbering); files are "
+        "compared as automata up to renaming of states, and the number of byte prefixes in db_trunc varies a little",
     ]
     bad = F.selftest(5 if quick else 6)
     if bad:
@@ -1305,12 +1413,12 @@ def run(ctx, only=None):
     if want("roundtrip"):
         e0 = ctx.evals
         nmax = 5 if quick else 6
-        cases = [((nm,), n) for nm in NAMES for n in range(nmax + 1)]
-        for n in ([4] if quick else [3, 4, 5]):
-            cases += [((a, b), n) for a in NAMES for b in NAMES]
+        groups = [[((nm,), n) for n in range(nmax + 1) for nm in NAMES]]
+        groups.append([((a, b), n) for n in ([4] if quick else [3, 4, 5]) for a in NAMES for b in NAMES])
         if not quick:
-            cases += [((a, b, a), 4) for a in NAMES for b in NAMES if a != b]
-        ctx.pmap(shard_roundtrip, [cases[i::NPROC * 2] for i in range(NPROC * 2)])
+            groups.append([((a, b, a), 4) for a in NAMES for b in NAMES if a != b])
+        for cases in groups:        # simplest first: single writes, then overwrites
+            ctx.pmap(shard_roundtrip, [cases[i::NPROC * 2] for i in range(NPROC * 2)])
         ctx.bounds["roundtrip"] = ("12 named predicates x n<=%d; all ordered pairs written one after the other "
                                    "under one name at n in %s%s" % (nmax, [4] if quick else [3, 4, 5],
                                                                     "" if quick else "; all A,B,A triples at n=4"))
@@ -1319,13 +1427,9 @@ def run(ctx, only=None):
         e0 = ctx.evals
         kref, klib = (8, 6) if quick else (8, 8)
         ctx.pmap(shard_shipped, [(nm, kref, klib) for nm in NAMES])
-        total = math.factorial(8)
-        per = total // 2
-        ctx.pmap(shard_level, [(nm, 8, 8, lo, min(total, lo + per), kref >= 8, klib >= 8)
-                               for nm in NAMES for lo in range(0, total, per)])
         nine = sorted(fn[:-len("_good_len9.json")] for fn in os.listdir(_SHIPPED) if fn.endswith("_good_len9.json"))
         total = math.factorial(9)
-        per = total // 16
+        per = total // (6 if quick else 24)
         ctx.pmap(shard_level, [(nm, 9, 9, lo, min(total, lo + per), True, not quick)
                                for nm in nine for lo in range(0, total, per)])
         ctx.bounds["shipped"] = {"sets": NAMES, "partition_checked_for_levels": "0..8",
@@ -1334,13 +1438,13 @@ def run(ctx, only=None):
         ctx.section("shipped", evaluations=ctx.evals - e0)
     if want("fresh") and (want("bisc_hist") and want("db_hist")):
         e0 = ctx.evals
-        cnt = 6 if quick else 24
+        cnt = 3 if quick else 12
         pick = []
         for kind, params, hists in (("bisc", _bisc_params(quick), bisc_hists), ("db", _db_params(quick), db_hists)):
             hs = [h for h in hists if len(h) >= 2]
             stepn = max(1, len(hs) // cnt)
             pick += [(kind, params, list(h)) for h in hs[::stepn][:cnt]]
-        ctx.pmap(shard_fresh, pick)
+        ctx.pmap(shard_fresh, pick + [(None, None, None)])
         ctx.bounds["fresh"] = "%d recorded histories re-run in one fresh interpreter each" % len(pick)
         traces += len(pick)
         ctx.section("fresh", evaluations=ctx.evals - e0)
@@ -1353,13 +1457,14 @@ def run(ctx, only=None):
 def replay(ctx, rec):
     global _WORK
     _WORK = ctx.work
+    _reset()
     sub, case = rec["sub"], rec["case"]
     try:
         if sub in ("bisc_hist", "db_hist"):
-            model = _model(case["model"], case["params"])
             hist = _tup(case["history"])
-            for i in range(0, len(hist) + 1):
-                _, viols, _, _, _ = _isolated(model.build, hist[:i])
+            pre = [_tup(h) for h in case.get("replayed_before_in_the_same_process", [])]
+            for i in range(0 if not pre else len(hist), len(hist) + 1):
+                viols = _fresh(case["model"], case["params"], pre + [hist[:i]])["violations"]
                 if viols:
                     ctx.violation(sub, case, viols[0])
                     break
@@ -1378,10 +1483,7 @@ def replay(ctx, rec):
             elif case.get("level") == 9:
                 ctx.merge(shard_level((name, 9, 9, 0, math.factorial(9), True, True)))
             else:
-                part = shard_shipped((name, 8, 8))
-                if not part.nviol:
-                    part = shard_level((name, 8, 8, 0, math.factorial(8), True, True))
-                ctx.merge(part)
+                ctx.merge(shard_shipped((name, 8, 8)))
         elif sub == "fresh":
             ctx.merge(shard_fresh((case["model"], case["params"], case["history"])))
         else:
